@@ -57,7 +57,7 @@ def check(ctx):
             ctx.count("C_trans")
             if d > 1e-10:
                 ctx.fail("oracle", f"C09/oracle/c_trans/order{order}", f"C_trans of {name} order {order} is not orthonormal ({d:.2e})", replay={"tp": tp.tolist(), "order": order}, has_input=True)
-    cells = [("tri1", (2, 2, 1), None), ("tri2_P1", (1, 1, 1), None), ("bcc_conv", (1, 1, 1), None), ("hcp", (1, 1, 1), None), ("tri1", (2, 2, 1), 3.9), ("nacl_prim", (1, 1, 1), None), ("fcc_conv", (1, 1, 1), None)]
+    cells = [("tri1", (2, 2, 1), None), ("tri2_P1", (1, 1, 1), None), ("bcc_conv", (1, 1, 1), None), ("hcp", (1, 1, 1), None), ("tri1", (2, 2, 1), 3.9), ("nacl_prim", (1, 1, 1), None), ("fcc_conv", (1, 1, 1), None), ("tri2_P1", (3, 1, 1), None), ("p4_general", (1, 1, 1), None)]
     if not ctx.quick:
         cells += [("tri1", (2, 2, 2), None), ("wurtzite", (1, 1, 1), None), ("ortho_C", (1, 1, 2), 4.5), ("si_prim", (2, 1, 1), None), ("rutile_like", (1, 1, 1), None), ("flat", (1, 1, 1), None)]
     for cname, diag, cut in cells:
@@ -65,7 +65,7 @@ def check(ctx):
         N = len(sc["numbers"])
         at = atoms_of(sc)
         for order in (2, 3, 4):
-            if N ** order * 3 ** order > 700000:
+            if N ** order * 3 ** order > 700000 or (order == 4 and N >= 5 and ctx.quick):
                 continue
             for thr in (None, 1):
                 if thr is not None:
